@@ -20,6 +20,7 @@ Layers
   c15.sle.hist       depth 3: sequences of (solvent set, T, given | computed) calls on ONE stream
   c15.sle.feed       depth 2: calls on ONE stream with the feed edited in between (solute total up / down, solvent set and amounts)
   c15.lle.hist.nu.de depth 3: histories that contain `update=False` calls
+  c15.sle.solutes    depth 2/3: ONE stream whose contents are replaced by another solute (pure or in Methanol) between calls
 
 Reference model: my own evaluation of x_i * gamma_i per phase with `thermo.Gamma` over the whole
 package (not the solver's sub-list), my own mass fractions, the feed vector I put in, and
@@ -158,9 +159,13 @@ def _comp(sub, pat):
         for k, i in enumerate(sub): v[i] = o[k]
     return tuple(v)
 
+# small feeds (0.5 mol in total) with one DILUTE member at mole fraction 1e-3, 1e-2, 1e-3, 1e-4: at scale 1e-3 its absolute flow is
+# 5e-7 ... 5e-8, so any absolute cut-off applied to the raw flows before normalisation breaks proportionality (scale clause)
+DILUTE = ((0.3, 0.0, 0.2, 0.0, 0.0, 5e-4), (0.3, 0.0, 0.0, 0.0, 0.2, 5e-3), (0.3, 5e-4, 0.0, 0.2, 0.0, 0.0), (0.2, 0.0, 5e-5, 0.0, 0.3, 0.0))
+
 def lle_comps(tier, seed):
     subs = _subsets()
-    full = []
+    full = list(DILUTE)
     for sub in subs:
         for pat in ('w', 'o', 'q'):
             full.append(_comp(sub, pat))
@@ -168,7 +173,7 @@ def lle_comps(tier, seed):
     if tier != 'quick': return full
     core = [_comp((2,), 'w'), _comp((1,), 'w'), _comp((4,), 'q'), _comp((3,), 'q'), _comp((2,), 'o'),
             _comp((2, 5), 'w'), _comp((3, 5), 'o'), _comp((1, 5), 'w'), _comp((2, 5), 'e'),
-            _comp((1, 4, 5), 'w'), _comp((1, 2, 3, 4), 'w')]
+            _comp((1, 4, 5), 'w'), _comp((1, 2, 3, 4), 'w'), DILUTE[0], DILUTE[1]]
     rest = [c for c in full if c not in core]
     k = (seed * 7) % len(rest)
     extra = (rest[k:] + rest[:k])[:7]
@@ -178,7 +183,7 @@ def lle_subgrid(tier, seed):
     """declared sub-grid for the global optimisers: (composition, T) pairs"""
     comps = [_comp((2,), 'w'), _comp((1,), 'w'), _comp((4,), 'q'), _comp((2, 5), 'w'), _comp((3, 5), 'o'),
              _comp((2, 5), 'e'), _comp((1, 4, 5), 'w'), _comp((1, 2, 3, 4), 'w'),
-             _comp((3,), 'q'), _comp((2,), 'o'), _comp((1, 5), 'w'), _comp((2, 4, 5), 'o')]
+             _comp((3,), 'q'), _comp((2,), 'o'), _comp((1, 5), 'w'), _comp((2, 4, 5), 'o'), DILUTE[0]]
     if tier == 'quick':
         k = seed % 4
         return [comps[0], comps[3], comps[4 + k]]
@@ -902,6 +907,49 @@ class SLEFeed(SLEBase):
         return repr((st.config[0], st.config[3], a[0], a[2], a[4] is None, obs))
 
 
+PURE_PKG = ('Methanol', 'Dodecanol', 'Tetradecanol', 'Hexadecanol')      # Tm 297.15, 312.65, 322.65 K
+PURE_T = (290.0, 305.0, 317.0, 330.0)                                      # below all / between / between / above all
+
+class SLESolutes(SLEBase):
+    """ONE stream whose contents are REPLACED between calls by another solute (pure, or with Methanol): action =
+    (solute index, with solvent, T, solute initially solid).  The melting rule / the solubility bound must hold on every call for the
+    solute named in THAT call.  config = (pkg name, (), 'a', ideal, tier)."""
+    name = 'c15.sle.solutes'
+    def warm(self):
+        _load()
+        for ideal in (False, True): fx.custom_thermo(PURE_PKG, ideal=ideal)
+    def depth(self, tier): return 2 if tier == 'quick' else 3
+    def describe(self, tier): return dict(package=list(PURE_PKG), T=list(PURE_T), solutes=list(PURE_PKG[1:]))
+    def configs(self, tier, seed):
+        return [('alcohols', (), 'a', ideal, tier) for ideal in (0, 1)]
+    def build(self, config):
+        tmo = fx.tmo()
+        th = fx.custom_thermo(PURE_PKG, ideal=bool(config[3]))
+        s = tmo.Stream(None, thermo=th, Tetradecanol=5.0)
+        s.sle
+        st = SSt()
+        st.s = s; st.th = th; st.config = config; st.hist = []; st.info = {}
+        st.calls = dict(computed=0, given=0)
+        return st
+    def actions(self, st):
+        tier = st.config[4]
+        solid0 = (0,) if tier == 'quick' else (0, 1)
+        return [(j, solv, T, sd) for j in (1, 2, 3) for solv in (0, 1) for T in PURE_T for sd in solid0]
+    def step(self, st, a):
+        j, solv, T, sd = a
+        s = st.s
+        n = len(PURE_PKG)
+        s.imol['l'] = np.zeros(n); s.imol['s'] = np.zeros(n)
+        if solv: s.imol['l', 'Methanol'] = 10.0
+        s.imol['s' if sd else 'l', PURE_PKG[j]] = 5.0
+        st.info = _sle_call(st, PURE_PKG[j], T, None)
+        st.hist.append(a)
+        i = st.info
+        return ('pure:' + str(i.get('rule')) if i.get('pure') else ('split' if i.get('split') else 'one-phase'))
+    def outcome(self, st, a, obs):
+        return repr((st.config[3], a[0], a[1], obs, _sle_hidden(st.s)[2]))
+
+
 SYSTEMS = [
     LLEGrid('c15.lle.grid.pe', 'pe', 'labels+scale'),
     LLEGrid('c15.lle.act.pe', 'pe', 'activity'),
@@ -925,4 +973,5 @@ SYSTEMS = [
     SLEGrid(),
     SLEHist(),
     SLEFeed(),
+    SLESolutes(),
 ]
